@@ -1,20 +1,33 @@
 """C21 — the Frisky records path computes the same results as the dask graph.
 
-(The native Rust layers cannot be built here — every `_frisky_layer()` raises ImportError and the
-walk falls back to the generic `GraphRecordsLayer` translation, which is what this check exercises.)"""
+(The native Rust layers cannot be built here — every `_frisky_layer()` that needs the extension raises ImportError
+and the walk falls back to the generic `GraphRecordsLayer` translation, which is what this check exercises; the one
+native layer that is pure Python, FusedBlockwiseLayer, does run.)
+
+Two families:
+  * differential execution (check_collection, the shared walk): the real records are executed in-process and compared
+    with what `__dask_graph__()` computes;
+  * model correspondence (model_correspondence): real and synthetic `_task_spec` graphs and the records the real
+    `GraphRecordsLayer.to_task_records()` makes of them are reified into Coq and compared structurally with the
+    model `flatten` of coq/theories/Records.v (theorems: coq/Properties/C21.v); likewise `_check_complete` and the
+    visiting order of `_walk_records` with a shared `seen`."""
 from __future__ import annotations
 
+import numbers
 import re
 import warnings
 
 import dask.local
 import numpy as np
-from dask._task_spec import TaskRef
+import toolz
+from dask._task_spec import Alias, DataNode, GraphNode, List, NestedContainer, Set, Task, TaskRef, Tuple
+from dask._task_spec import Dict as TSDict
+from dask._task_spec import convert_legacy_graph
 from dask.core import flatten
 
 import progs
 from c10 import fp
-from common import Check
+from common import Check, clist, coq_eval_cases, ctuple
 
 
 def err_sig(e):
@@ -86,6 +99,15 @@ def execute_records(records):
     return cache, problems
 
 
+def fused_creation(x):
+    """does a FusedBlockwise node of the lowered expression have no array input at all (a creation op such as ones() was
+    fused into the chain, so the fused task's literals depend on the block)?"""
+    try:
+        return any(type(e).__name__ == "FusedBlockwise" and not e.dependencies() for e in x._lowered_expr.walk())
+    except Exception:  # noqa: BLE001
+        return False
+
+
 def check_collection(chk, x, desc, tag):
     """one collection alone"""
     try:
@@ -109,18 +131,529 @@ def check_collection(chk, x, desc, tag):
             return records
     if out_keys != list(dict.fromkeys(str(k) for k in keys)):
         problems.append("__frisky_output_keys__ differs from the stringified dask keys")
+    kind = None
     for k, w in zip(keys, want):
         if str(k) not in cache:
             problems.append(f"output key {k} is not defined by the records")
             break
         if fp(np.asarray(cache[str(k)])) != fp(np.asarray(w)):
-            problems.append(f"block {k} differs between the records path and __dask_graph__")
+            gs, ws = np.asarray(cache[str(k)]).shape, np.asarray(w).shape
+            problems.append(f"block {k} differs between the records path {gs} and __dask_graph__ {ws}")
+            if kind is None and gs != ws:
+                kind = "block-shape"
             break
     if problems:
-        chk.violation("; ".join(problems[:3]), desc, signature={"class": "records", "problem": problems[0][:24], "root_op": tag})
+        sig = {"class": "records", "problem": problems[0][:24], "root_op": tag}
+        if kind == "block-shape":
+            # which layer produced the records of the wrong block: the native pure-Python FusedBlockwiseLayer?
+            sig["kind"] = kind
+            sig["native_fused_root"] = type(x._lowered_expr).__name__ == "RootAlias" and any(
+                type(e).__name__ == "FusedBlockwise" for e in x._lowered_expr.dependencies()) or type(x._lowered_expr).__name__ == "FusedBlockwise"
+            sig["fused_creation"] = fused_creation(x)
+        chk.violation("; ".join(problems[:3]), desc, signature=sig)
     else:
         chk.traces_validated += len(keys)
     return records
+
+
+# =====================================================================================
+# Correspondence with the Coq model (coq/theories/Records.v)
+#
+#   flatten   <->  GraphRecordsLayer.to_task_records  (_records / _Flattener.resolve)
+#   dangling  <->  collect._check_complete
+#   walk      <->  collect._walk_records (shared `seen`)
+#
+# A real layer is reified twice, independently: its INPUT (the `_task_spec` graph that
+# `convert_legacy_graph(node._layer(), all_keys)` yields: node kinds, nesting of args) and
+# the OUTPUT of the real `to_task_records()` (keys incl. "-subN" keys, funcs, arg skeletons,
+# deps); Coq then checks `flatten input = output` structurally.  Keys are numbered by their
+# normalized string, functions / literal leaves / kwarg names become opaque tags (same object,
+# or equal simple immutable value -> same tag).
+REC_HEADER = ("From DA Require Import Graph Records.\n"
+              "From Coq Require Import List PArith Arith.\nImport ListNotations.\n"
+              "Fixpoint mismatches_from {A} (i : nat) (chk : A -> bool) (l : list A) : list nat :=\n"
+              "  match l with [] => [] | x :: t => if chk x then mismatches_from (S i) chk t\n"
+              "                                    else i :: mismatches_from (S i) chk t end.\n"
+              "Definition mismatches {A} (chk : A -> bool) (l : list A) : list nat := mismatches_from 0%nat chk l.\n"
+              "Fixpoint idx (k : rkey) (l : list rkey) : nat :=\n"
+              "  match l with [] => O | x :: t => if rkey_eqb k x then O else S (idx k t) end.\n"
+              "Open Scope positive_scope.\n")
+# (string order of all record keys, input graph, real output or None = NotImplementedError, #dangling reported,
+#  no DataNode value embeds a TaskRef, no raw list/tuple/dict holds a GraphNode or TaskRef (the harness's own scans))
+FLAT_TYPE = "list rkey * sgraph * option (list rec) * nat * bool * bool"
+FLAT_CHK = ("Definition chk (c : " + FLAT_TYPE + ") : bool :=\n"
+            "  let '(ord, g, out, nd, dok, rok) := c in\n"
+            "  Bool.eqb (data_ok g) dok && Bool.eqb (raw_ok g) rok &&\n"
+            "  match flatten_opt (fun a b => Nat.leb (idx a ord) (idx b ord)) g, out with\n"
+            "  | Some rs, Some rs' => recs_eqb rs rs' && Nat.eqb (length (nodup rkey_eq_dec (dangling rs'))) nd\n"
+            "  | None, None => true\n"
+            "  | _, _ => false\n"
+            "  end.")
+# (dag as (name, deps), [(root, names emitted by the real walk for that root)] with one shared seen)
+WALK_TYPE = "list (positive * list positive) * list (positive * list positive)"
+WALK_CHK = ("Fixpoint go (d : dag) (rs : list (positive * list positive)) (seen : list positive) : bool :=\n"
+            "  match rs with\n"
+            "  | [] => true\n"
+            "  | (r, em) :: t => match walk d [r] seen with\n"
+            "                    | Some (seen1, em1) => glist_eqb2 Pos.eqb em1 em && go d t seen1\n"
+            "                    | None => false end\n"
+            "  end.\n"
+            "Definition chk (c : " + WALK_TYPE + ") : bool :=\n"
+            "  let '(d, rs) := c in go (map (fun nd => mklnode (fst nd) [] (snd nd)) d) rs [].")
+
+MAX_LAYER_NODES = 300
+MAX_LAYER_SIZE = 6000
+SUB_RE = re.compile(r"^(.*)-sub(\d+)$", re.S)
+
+
+def norm_key_str(key):
+    """the identity of a key on the records path: str of the key with integral coords as plain ints"""
+    if isinstance(key, tuple):
+        key = tuple(int(k) if isinstance(k, numbers.Integral) else k for k in key)
+    return str(key)
+
+
+class Skip(Exception):
+    pass
+
+
+class Reifier:
+    """One layer -> Coq literals."""
+
+    def __init__(self):
+        self.kid = {}                       # key string -> positive
+        self.by_id = {id(toolz.identity): 1}
+        self.by_fp = {}
+        self.next_tag = 2
+        self.keep = []                      # keeps tagged objects alive (ids stay unique)
+        self.size = 0
+        self.nsub = 0
+        self.data_with_ref = False
+        self.raw_depth = 0                  # > 0 while inside a raw Python list / tuple / dict
+        self.raw_holds_node = False         # a GraphNode / TaskRef inside a raw container (data for dask, resolved by the records path)
+        self.unknown_keys = []
+
+    # ---- numbering
+    def key(self, k):
+        s = norm_key_str(k)
+        return self.kid.setdefault(s, len(self.kid) + 1)
+
+    def tag(self, x):
+        t = self.by_id.get(id(x))
+        if t is None:
+            fpk = None
+            if type(x) in (int, float, str, bool, type(None), bytes, complex, slice) or isinstance(x, (np.generic, np.dtype)):
+                fpk = (type(x).__name__, repr(x))
+            if fpk is not None:
+                t = self.by_fp.get(fpk)
+            if t is None:
+                t = self.next_tag
+                self.next_tag += 1
+                if fpk is not None:
+                    self.by_fp[fpk] = t
+            self.by_id[id(x)] = t
+            self.keep.append(x)
+        return t
+
+    def bump(self):
+        self.size += 1
+        if self.size > MAX_LAYER_SIZE:
+            raise Skip
+
+    # ---- record-side values (targ): DataNode values and the args of the real records
+    def rkey(self, s, out=False):
+        if s in self.kid:
+            return f"KG {self.kid[s]}"
+        m = SUB_RE.match(s)
+        if m and m.group(1) in self.kid:
+            return f"KSub {self.kid[m.group(1)]} {int(m.group(2))}%nat"
+        if out:
+            self.unknown_keys.append(s)
+        return f"KG {self.key(s)}"
+
+    def val(self, v, out=False):
+        self.bump()
+        if isinstance(v, TaskRef):
+            if not out:
+                self.data_with_ref = True
+            return f"(TRef ({self.rkey(norm_key_str(v.key), out)}))"
+        if isinstance(v, list):
+            return "(TList " + clist(v, lambda a: self.val(a, out)) + ")"
+        if isinstance(v, tuple):
+            return "(TTuple " + clist(v, lambda a: self.val(a, out)) + ")"
+        if isinstance(v, dict):
+            return "(TDict " + clist(v.items(), lambda kv: ctuple(str(self.tag(kv[0])), self.val(kv[1], out))) + ")"
+        return f"(TLit {self.tag(v)})"
+
+    # ---- source side
+    def kw(self, d):
+        return clist((d or {}).items(), lambda kv: ctuple(str(self.tag(kv[0])), self.arg(kv[1])))
+
+    def raw(self, items, f):
+        self.raw_depth += 1
+        try:
+            return clist(items, f)
+        finally:
+            self.raw_depth -= 1
+
+    def arg(self, a):
+        self.bump()
+        if self.raw_depth and isinstance(a, (TaskRef, GraphNode)):
+            self.raw_holds_node = True
+        if isinstance(a, TaskRef):
+            return f"(ARef {self.key(a.key)})"
+        if isinstance(a, Alias):
+            return f"(AAlias {self.key(a.target)})"
+        if isinstance(a, DataNode):
+            return f"(AData {self.val(a.value)})"
+        if isinstance(a, NestedContainer) and a.klass in (list, tuple):
+            return f"(ASeq {'ContList' if a.klass is list else 'ContTuple'} {clist(a.args, self.arg)})"
+        if isinstance(a, Task):
+            self.nsub += 1
+            return f"(ATask {self.tag(a.func)} {clist(a.args, self.arg)} {self.kw(a.kwargs)})"
+        if isinstance(a, GraphNode):
+            return "AOther"
+        if isinstance(a, list):
+            return f"(ASeq RawList {self.raw(a, self.arg)})"
+        if isinstance(a, tuple):
+            return f"(ASeq RawTuple {self.raw(a, self.arg)})"
+        if isinstance(a, dict):
+            return "(ADict " + self.raw(a.items(), lambda kv: ctuple(str(self.tag(kv[0])), self.arg(kv[1]))) + ")"
+        return f"(ALit {self.tag(a)})"
+
+    def node(self, n):
+        self.bump()
+        if isinstance(n, Alias):
+            return f"(NAlias {self.key(n.target)})"
+        if isinstance(n, DataNode):
+            return f"(NData {self.val(n.value)})"
+        if isinstance(n, NestedContainer) and n.klass in (list, tuple):
+            return f"(NCont {'true' if n.klass is list else 'false'} {clist(n.args, self.arg)})"
+        if isinstance(n, Task):
+            return f"(NTask {self.tag(n.func)} {clist(n.args, self.arg)} {self.kw(n.kwargs)})"
+        if isinstance(n, GraphNode):
+            return "NOther"
+        return f"(NData {self.val(n)})"     # bare value: same record as a DataNode
+
+    def record(self, r):
+        key, func, args, kwargs, deps = r
+        if not (isinstance(key, str) and isinstance(args, tuple) and isinstance(kwargs, dict)
+                and isinstance(deps, list) and all(isinstance(d, str) for d in deps)):
+            raise ValueError("record is not (str, func, tuple, dict, list[str])")
+        return (f"(mkrec ({self.rkey(key, True)}) {self.tag(func)} {clist(args, lambda a: self.val(a, True))} "
+                + clist(kwargs.items(), lambda kv: ctuple(str(self.tag(kv[0])), self.val(kv[1], True)))
+                + " " + clist(deps, lambda d: "(" + self.rkey(d, True) + ")") + ")")
+
+
+class LayerProxy:
+    """Stands in for an expression node: `_layer()` returns ONE dict object, so that the graph the harness
+    reifies and the graph `to_task_records` translates hold the very same function / literal objects."""
+
+    def __init__(self, local, deps):
+        self._local, self._deps = local, deps
+
+    def _layer(self):
+        return self._local
+
+    def dependencies(self):
+        return self._deps
+
+
+class KeysOnly:
+    def __init__(self, keys):
+        self._keys = keys
+
+    def __dask_keys__(self):
+        return list(self._keys)
+
+
+def layer_case(chk, local, deps, what):
+    """(coq case literal, info) for one layer, or None when skipped"""
+    from dask_array._frisky import collect
+    from dask_array._frisky.graph_records import GraphRecordsLayer
+    all_keys = set(local)
+    for dep in deps:
+        all_keys.update(flatten(dep.__dask_keys__()))
+    dsk = convert_legacy_graph(local, all_keys)
+    if len(dsk) > MAX_LAYER_NODES:
+        chk.count("corr:skipped-large")
+        return None
+    try:
+        recs = GraphRecordsLayer(LayerProxy(local, deps)).to_task_records()
+    except NotImplementedError:
+        recs = None
+    R = Reifier()
+    try:
+        for k in dsk:                       # graph keys first: they take the ids 1..n in dict order
+            R.key(k)
+        subs = []                           # (parent key string, number of inline tasks)
+        nodes = []
+        for k, n in dsk.items():
+            R.nsub = 0
+            nodes.append(ctuple(str(R.key(k)), R.node(n)))
+            if R.nsub:
+                subs.append((norm_key_str(k), R.nsub))
+        n_dangling = 0
+        if recs is None:
+            out = "None"
+        else:
+            out = "(Some " + clist(recs, R.record) + ")"
+            try:
+                collect._check_complete(recs)
+            except NotImplementedError as e:
+                n_dangling = int(re.search(r"has (\d+) dangling", str(e)).group(1))
+    except Skip:
+        chk.count("corr:skipped-large")
+        return None
+    # the oracle: Python's order of the key STRINGS (graph keys and every possible "-subN" key)
+    universe = [(s, f"KG {i}") for s, i in R.kid.items()]
+    universe += [(f"{ps}-sub{j}", f"KSub {R.kid[ps]} {j}%nat") for ps, n in subs for j in range(1, n + 1)]
+    strings = [s for s, _ in universe]
+    collision = len(set(strings)) != len(strings)
+    universe.sort(key=lambda p: p[0])
+    lit = ctuple(clist(universe, lambda p: "(" + p[1] + ")"), clist(nodes, str), out, f"{n_dangling}%nat",
+                 "false" if R.data_with_ref else "true", "false" if R.raw_holds_node else "true")
+    info = {"what": what, "nodes": len(dsk), "records": None if recs is None else len(recs), "subs": sum(n for _, n in subs),
+            "collision": collision, "data_with_ref": R.data_with_ref, "raw_holds_node": R.raw_holds_node, "unknown_keys": R.unknown_keys[:3], "size": R.size,
+            "declined": recs is None}
+    return lit, info
+
+
+# ---- synthetic `_task_spec` graphs: every construct of the source language, nested at random
+def _syn_f(*a, **k):
+    return ("f", a, tuple(sorted(k.items(), key=str)))
+
+
+def _syn_g(*a, **k):
+    return ("g", a, tuple(sorted(k.items(), key=str)))
+
+
+class Weird(GraphNode):
+    """a GraphNode the translation does not know: NotImplementedError expected"""
+    __slots__ = ()
+
+    def __init__(self):
+        self.key = None
+        self._dependencies = frozenset()
+
+
+def syn_graph(rng):
+    names = ["x", "y"]
+    nkeys = rng.choice([1, 2, 3, 4])
+    keys = [(rng.choice(names), np.int64(i) if rng.random() < 0.3 else i) for i in range(nkeys)]
+    if rng.random() < 0.15:
+        keys.append("plain-key")
+    ext = [("z", 0), ("z", np.int64(1)), "ext"]
+
+    def ref_key():
+        return rng.choice(keys + ext)
+
+    def lit():
+        return rng.choice([0, 1, 7, "s", None, 2.5, slice(0, 3), (1, 2), np.int64(3), [1, [2]], {"a": 1}])
+
+    def arg(depth):
+        r = rng.random()
+        if depth <= 0 or r < 0.25:
+            c = rng.random()
+            if c < 0.4:
+                return TaskRef(ref_key())
+            if c < 0.55:
+                return Alias(ref_key())
+            if c < 0.7:
+                return DataNode(None, lit())
+            return lit()
+        kids = [arg(depth - 1) for _ in range(rng.choice([0, 1, 2, 3]))]
+        c = rng.random()
+        if c < 0.22:
+            kw = {rng.choice(["a", "b", "c"]): arg(depth - 1) for _ in range(rng.choice([0, 0, 1, 2]))}
+            return Task(None, rng.choice([_syn_f, _syn_g, toolz.identity]), *kids, **kw)
+        if c < 0.4:
+            return List(*kids)
+        if c < 0.55:
+            return Tuple(*kids)
+        if c < 0.63:
+            return TSDict({rng.choice(["p", "q", 3]): a for a in kids})
+        if c < 0.68:
+            return Set(*kids)
+        if c < 0.8:
+            return list(kids)
+        if c < 0.9:
+            return tuple(kids)
+        if c < 0.99:
+            return {rng.choice(["u", "v", 1]): a for a in kids}
+        return Weird()
+
+    dsk = {}
+    for k in keys:
+        c = rng.random()
+        if c < 0.55:
+            kw = {rng.choice(["a", "b"]): arg(2) for _ in range(rng.choice([0, 0, 1]))}
+            dsk[k] = Task(k, rng.choice([_syn_f, _syn_g]), *[arg(rng.choice([1, 2, 3])) for _ in range(rng.choice([0, 1, 2, 3]))], **kw)
+        elif c < 0.65:
+            t = ref_key()
+            if norm_key_str(t) == norm_key_str(k) and rng.random() < 0.5:
+                t = str(t) if not isinstance(t, str) else ("x", 0)    # a self-alias only by its STRING survives conversion
+            dsk[k] = Alias(k, t)
+        elif c < 0.75:
+            dsk[k] = DataNode(k, lit())
+        elif c < 0.88:
+            dsk[k] = (List if rng.random() < 0.5 else Tuple)(*[arg(2) for _ in range(rng.choice([0, 1, 2, 3]))])
+        elif c < 0.93:
+            dsk[k] = (TSDict({"p": arg(1)}) if rng.random() < 0.5 else Set(arg(1)))
+        elif c < 0.97:
+            dsk[k] = rng.choice([5, "text", (_syn_f, 1, [keys[0], 2]), keys[0], [keys[0], ("z", 0)]])   # legacy forms
+        else:
+            dsk[k] = Weird()
+    return dsk, [KeysOnly(ext)]
+
+
+CORPUS_GRAPHS = [
+    # the example of the module docstring: concatenate3([[Task(getitem, ...)]]) -> one lifted sub-task
+    lambda: {("c", 0): Task(("c", 0), _syn_f, List(List(Task(None, _syn_g, TaskRef(("a", 0)), (slice(0, 2),)), TaskRef(("a", 1)))))},
+    # numbering is pre-order, appending post-order: sub1 = outer, sub2 = inner, extra = [sub2, sub1]
+    lambda: {("c", 0): Task(("c", 0), _syn_f, Task(None, _syn_g, Task(None, _syn_f, TaskRef(("a", 0))), kw=Task(None, _syn_g)), Alias(("a", 0)))},
+    # raw dict holding an inline task; Dict / Set containers go through the generic Task lift
+    lambda: {("c", 0): Task(("c", 0), _syn_f, {"k": Task(None, _syn_g, TaskRef(("a", 0)))}, TSDict({"p": TaskRef(("a", 1))}), Set(TaskRef(("a", 0))))},
+    # a self-alias by its string only, an ordinary alias, numpy coords, a container node
+    lambda: {"('a', 0)": Alias("('a', 0)", ("a", 0)), ("b", np.int64(0)): Alias(("b", np.int64(0)), ("a", np.int64(0))),
+             ("b", 1): Tuple(TaskRef(("a", np.int64(0))), DataNode(None, [1, 2]), 5)},
+    # an unhandled GraphNode, top level and inline: NotImplementedError
+    lambda: {("c", 0): Weird()},
+    lambda: {("c", 0): Task(("c", 0), _syn_f, List(Weird()))},
+    # ten inline tasks: "-sub10" sorts before "-sub2"
+    lambda: {("c", 0): Task(("c", 0), _syn_f, *[Task(None, _syn_g, i) for i in range(11)])},
+    # replay of C21_complete_self_alias_refuted: a referenced self-alias has no record, the reference dangles
+    lambda: {"('a', 0)": Alias("('a', 0)", ("a", 0)), ("b", 0): Alias(("b", 0), ("a", 0))},
+    # replay of C21_deps_exact_without_data_ok_refuted: a TaskRef inside a DataNode value is embedded, not declared
+    # (the only corpus entry on which `data_ok` is false; on a real layer that is reported)
+    lambda: {("c", 0): DataNode(("c", 0), [TaskRef(("a", 0))]), ("c", 1): Task(("c", 1), _syn_f, DataNode(None, (TaskRef(("a", 1)),)))},
+]
+CORPUS_DATA_REF_EXPECTED = {len(CORPUS_GRAPHS) - 1}
+
+
+def model_correspondence(chk, layer_cases, walk_cases):
+    import time
+    t0 = time.time()
+    # ---- flatten / dangling
+    lits = [c[0] for c in layer_cases]
+    # structurally identical layers reify to the very same literal (numbering is canonical): evaluate each once
+    uniq = list(dict.fromkeys(lits))
+    bad = set(uniq[i] for i in coq_eval_cases(REC_HEADER, FLAT_TYPE, FLAT_CHK, uniq, chunk=max(40, -(-len(uniq) // 12)))[0])
+    mism = [i for i, l in enumerate(lits) if l in bad]
+    chk.extra["corr_flatten_distinct_literals"] = len(uniq)
+    chk.extra["corr_flatten_coq_s"] = round(time.time() - t0, 1)
+    chk.extra["corr_flatten_literal_bytes"] = sum(len(x) for x in lits)
+    for i, (_, info) in enumerate(layer_cases):
+        if info["collision"]:
+            chk.tie_break("assumption:sub-key-collides-with-graph-key", info)
+        if info["data_with_ref"] and not info.get("data_ref_expected"):
+            chk.tie_break("assumption:data-node-value-embeds-taskref", info)
+        if info["raw_holds_node"] and info.get("generic_path"):
+            # C21_flatten_sound_dask needs raw_ok: the generic translation would execute what dask treats as data
+            chk.tie_break("assumption:graph-node-inside-raw-container-on-the-generic-path", info)
+    for i in mism:
+        info = layer_cases[i][1]
+        chk.tie_break("model:flatten-differs-from-to_task_records", {**info, "coq_case": lits[i][:1500]})
+    chk.traces_validated += len(lits) - len(mism)
+    # ---- walk
+    wl = [c[0] for c in walk_cases]
+    mism, _ = coq_eval_cases(REC_HEADER, WALK_TYPE, WALK_CHK, wl, chunk=max(100, -(-len(wl) // 4)))
+    for i in mism:
+        chk.tie_break("model:walk-differs-from-_walk_records", {**walk_cases[i][1], "coq_case": wl[i][:1500]})
+    chk.traces_validated += len(wl) - len(mism)
+    chk.extra["corr_total_coq_s"] = round(time.time() - t0, 1)
+
+
+def collect_layer_cases(chk, x, seen_names, layer_cases, tagname):
+    """one case per not-yet-seen lowered expression node of the collection"""
+    import time
+    t0 = time.time()
+    try:
+        _collect_layer_cases(chk, x, seen_names, layer_cases, tagname)
+    finally:
+        chk.extra["corr_reify_s"] = round(chk.extra.get("corr_reify_s", 0) + time.time() - t0, 2)
+
+
+def _collect_layer_cases(chk, x, seen_names, layer_cases, tagname):
+    for node in x._lowered_expr.walk():
+        if node._name in seen_names:
+            continue
+        seen_names.add(node._name)
+        try:
+            with warnings.catch_warnings():
+                warnings.simplefilter("ignore")
+                local = node._layer()
+                deps = node.dependencies()
+                c = layer_case(chk, local, deps, f"{type(node).__name__} in {tagname}")
+                native = False              # does the real walk use a native layer for this node?
+                make_layer = getattr(node, "_frisky_layer", None)
+                if make_layer is not None:
+                    try:
+                        native = make_layer() is not None
+                    except (NotImplementedError, ImportError):
+                        native = False
+        except Exception as e:  # noqa: BLE001
+            chk.tie_break("corr:reification-raises", {"node": type(node).__name__, "error": f"{type(e).__name__}: {str(e)[:200]}"})
+            continue
+        if c is None:
+            continue
+        layer_cases.append(c)
+        info = c[1]
+        info["generic_path"] = not native
+        chk.count("corr:layer")
+        chk.count("corr:layer-generic-path" if not native else "corr:layer-native-in-the-real-walk")
+        if info["raw_holds_node"]:
+            chk.count("corr:layer-with-node-inside-raw-container")
+        chk.count(f"corr:layer:{type(node).__name__}")
+        if info["subs"]:
+            chk.count("corr:layer-with-lifted-subtasks")
+        if info["declined"]:
+            chk.count("corr:layer-declined")
+
+
+def walk_case(chk, colls):
+    """the real _walk_records over the collections of one group with a shared `seen`, and the DAG it walked"""
+    from dask_array._frisky import collect
+    log = []
+
+    class LogSet(set):                     # the shared `seen`: records the order in which names are added
+        def add(self, x):
+            log.append(x)
+            super().add(x)
+
+    orig = collect.GraphRecordsLayer
+
+    class NoRecords(orig):                 # only the visiting order is of interest here
+        def to_task_records(self):
+            return []
+
+    names = {}
+    dag = {}
+
+    def nid(nm):
+        return names.setdefault(nm, len(names) + 1)
+    roots = []
+    collect.GraphRecordsLayer = NoRecords
+    try:
+        seen = LogSet()
+        for x, _ in colls:
+            root = x._lowered_expr
+            start = len(log)
+            collect._walk_records([root], seen, [])
+            roots.append((root._name, log[start:]))
+            for e in root.walk():
+                if e._name not in dag:
+                    dag[e._name] = [d._name for d in e.dependencies()]
+    finally:
+        collect.GraphRecordsLayer = orig
+    if seen != set(log) or len(set(log)) != len(log):
+        chk.violation("shared walk: a layer was emitted twice or `seen` differs from the emitted layers",
+                      {"log": log[:20]}, signature={"class": "shared-seen", "problem": "layer emitted twice"})
+    for nm in dag:
+        nid(nm)
+    lit = ctuple(clist(dag.items(), lambda kv: ctuple(str(nid(kv[0])), clist(kv[1], lambda d: str(nid(d))))),
+                 clist(roots, lambda r: ctuple(str(nid(r[0])), clist(r[1], lambda d: str(nid(d))))))
+    return lit, {"roots": len(roots), "layers": len(dag), "emitted": [len(r[1]) for r in roots]}
 
 
 def run(chk: Check):
@@ -130,10 +663,54 @@ def run(chk: Check):
                 "in-process executor and every output key from __frisky_output_keys__ is compared with the block __dask_graph__ computes; "
                 "records must be complete (no dangling deps), keys unique, embedded TaskRefs declared as deps; groups of 2-3 collections "
                 "sharing subtrees are walked with one shared `seen` set and the union must be complete and compute every collection; "
-                "__frisky_records_chunks__ must decline or return no binary chunks plus complete plain records; non-trivial = records path taken")
-    chk.assumptions = ["native layers are absent in this sandbox: only the generic GraphRecordsLayer translation is exercised"]
+                "__frisky_records_chunks__ must decline or return no binary chunks plus complete plain records; non-trivial = records path taken.  "
+                "MODEL CORRESPONDENCE (coq/theories/Records.v): for every lowered expression node of every program, for hand-made corpus graphs "
+                "and for random synthetic _task_spec graphs, the input graph convert_legacy_graph(node._layer(), all_keys) and the output of the real "
+                "GraphRecordsLayer.to_task_records() are reified into Coq and `flatten_opt input = output` is checked structurally inside Coq (same keys "
+                "incl. -subN keys in the same order, same funcs, same arg skeletons, same sorted deps; NotImplementedError <-> None), together with "
+                "`dangling` = the count _check_complete reports and `data_ok`; for every group the real _walk_records visiting order with a shared "
+                "`seen` is compared with the model's `walk`")
+    chk.assumptions = ["native layers are absent in this sandbox: only the generic GraphRecordsLayer translation is exercised",
+                       "frisky Futures cannot exist in the sandbox: the Future branches of _records are not modelled",
+                       "a key is identified with str(_norm_key(key)); a '<parent>-subN' string is assumed never to be the string of a graph key "
+                       "(collisions are reported as a correspondence break)",
+                       "functions, literal leaves, kwarg names are opaque tags; the string order used by sorted(deps) is passed to the model as an oracle",
+                       "the correspondence applies GraphRecordsLayer to EVERY lowered node; in the real walk FusedBlockwise nodes use their native "
+                       "pure-Python FusedBlockwiseLayer (the only _frisky_layer that works without the Rust extension); their generic translation "
+                       "violates raw_ok (Tasks inside the raw subgraph dict) and is only checked structurally"]
     chk.run_proofs()
     rng = chk.rng
+    layer_cases, walk_cases, seen_names = [], [], set()
+    ext = [KeysOnly([("a", 0), ("a", 1)])]
+    for j, mk in enumerate(CORPUS_GRAPHS):
+        c = layer_case(chk, mk(), ext, f"corpus graph {j}")
+        c[1]["data_ref_expected"] = j in CORPUS_DATA_REF_EXPECTED
+        layer_cases.append(c)
+        chk.count("corr:corpus-graph")
+    for j in range(6000 if chk.tier == "thorough" else 500):
+        dsk, deps = syn_graph(rng)
+        c = layer_case(chk, dsk, deps, f"synthetic graph {j}")
+        if c is not None:
+            layer_cases.append(c)
+            chk.count("corr:synthetic-graph")
+            if c[1]["subs"]:
+                chk.count("corr:synthetic-with-lifted-subtasks")
+            if c[1]["declined"]:
+                chk.count("corr:synthetic-declined")
+            if c[1]["raw_holds_node"]:
+                chk.count("corr:synthetic-with-node-inside-raw-container")
+    # corpus (minimal reproducer of finding C21-A first): a creation op fused into a FusedBlockwise whose first and last
+    # blocks have the same size but an interior block does not
+    import dask_array as _da
+    for name, mk in [("neg(ones((6,), chunks=((1,3,1,1),)))", lambda: -_da.ones((6,), chunks=((1, 3, 1, 1),))),
+                     ("neg(ones((4,), chunks=((1,3),)))", lambda: -_da.ones((4,), chunks=((1, 3),)))]:
+        _materialize._LOWER_CACHE.clear()
+        with warnings.catch_warnings():
+            warnings.simplefilter("ignore")
+            x = mk()
+        chk.case(("corpus", name), nontrivial=True)
+        chk.count("corpus-collection")
+        check_collection(chk, x, {"program": name}, "neg")
     n = 4000 if chk.tier == "thorough" else 250
     for it in range(n):
         _materialize._LOWER_CACHE.clear()
@@ -156,9 +733,15 @@ def run(chk: Check):
             continue
         chk.case(("group", tuple(progs.show(p) for p, _ in members), it), nontrivial=True,
                  sample={"members": [progs.show(p) for p, _ in members]} if it < 3 else None)
+        try:
+            walk_cases.append(walk_case(chk, colls))
+            chk.count("corr:walk-group")
+        except Exception as e:  # noqa: BLE001
+            chk.tie_break("corr:walk-reification-raises", {"error": f"{type(e).__name__}: {str(e)[:200]}"})
         for x, p in colls:
             desc = progs.describe(p, g.sources)
             check_collection(chk, x, desc, p[0])
+            collect_layer_cases(chk, x, seen_names, layer_cases, p[0])
             # records + chunks protocol
             try:
                 with warnings.catch_warnings():
@@ -201,6 +784,7 @@ def run(chk: Check):
             if problems:
                 chk.violation("; ".join(problems[:3]), {"members": [progs.show(p) for _, p in colls]},
                               signature={"class": "shared-seen", "problem": problems[0][:24]})
+    model_correspondence(chk, layer_cases, walk_cases)
 
 
 def replay(path):
